@@ -245,7 +245,7 @@ def dynamic_segments(F, R):
     for f in F.fn_list:
         if not f.file.endswith('resizable_shared_memory/dynamic.rs'):
             continue
-        rm = [c for c in f.calls(r'SlotMap.*::remove$|slotmap::.*::remove$') if 'shared_memory_map' in f.chain(c.args[0])]
+        rm = f.calls(r'SlotMap.*::remove$|slotmap::.*::remove$')   # the only slot map of this file is the segment table (shared_memory_map)
         for c in rm:
             n += 1
             conds = [sym_nstr(sym(f, f.blocks[b]['t'][1])) for (b, tgt) in lib.guard_switches(f, c)]
